@@ -18,6 +18,10 @@ extern void     sym_cover(const char *name);
 extern void     sym_end(void);                      /* end of scenario (does not return) */
 extern int      sym_is_replay(void);
 extern void    *sym_fn(const char *name);           /* address of a file-static library function */
+/* numbers handed to fprintf by the library since the last reset (engine only; count is 0 in native replay) */
+extern void     sym_capture_reset(void);
+extern uint64_t sym_capture_count(void);
+extern double   sym_capture_f64(uint64_t i);
 struct sym_entry { const char *name; void (*fn)(void); };
 extern const struct sym_entry sym_entries[];     /* defined by each harness file, {0,0}-terminated */
 #endif
